@@ -39,24 +39,27 @@ DOC_OPTS = {"max_nodes": 8, "max_frags": 2, "max_sels": 3, "max_depth": 3, "max_
 class SubHarness(Harness):
     """adds @Subscription sources for every field of the subscription root"""
 
-    def register(self):
-        super().register()
+    def registration_steps(self):
+        steps = super().registration_steps()
         root = self.schema["roots"]["subscription"]
         H = self
-        for fn in self.schema["types"][root]["fields"]:
-            def mk(fn):
-                async def source(parent, args, ctx, info):
-                    rs = H.state_of(ctx)
-                    rs.source_calls.append((fn, copy.deepcopy(args), ctx is rs.ctx))
-                    for i, nid in enumerate(rs.events):
-                        if H.gate is not None:
-                            await H.gate(("source", rs.rid, i))
-                        rs.yielded += 1
-                        yield rs.mat.obj(rs.tree.node(nid))
+
+        def mk(fn):
+            async def source(parent, args, ctx, info):
+                rs = H.state_of(ctx)
+                rs.source_calls.append((fn, copy.deepcopy(args), ctx is rs.ctx))
+                for i, nid in enumerate(rs.events):
                     if H.gate is not None:
-                        await H.gate(("source-end", rs.rid))
-                return source
-            Subscription("%s.%s" % (root, fn), schema_name=self.name)(mk(fn))
+                        await H.gate(("source", rs.rid, i))
+                    rs.yielded += 1
+                    yield rs.mat.obj(rs.tree.node(nid))
+                if H.gate is not None:
+                    await H.gate(("source-end", rs.rid))
+            return source
+
+        for fn in self.schema["types"][root]["fields"]:
+            steps.append(lambda fn=fn: Subscription("%s.%s" % (root, fn), schema_name=self.name)(mk(fn)))
+        return steps
 
 
 def new_state(schema, req, rid=0):
